@@ -10,7 +10,7 @@ META = {
     'assumptions': ['"loss warning" = any warning printed by decompile other than the notice that unknown signatures were decompiled to byte blobs'],
     'floors': {'roundtrips_identical': 200, 'option_sets_seen': 8, 'formats_seen': 5},
 }
-SIZES = {'quick': 2400, 'thorough': 60000}
+SIZES = {'quick': 7200, 'thorough': 60000}
 OPTS = ['blocks', 'intrinsics', 'arguments', 'diff_switches', 'calls']
 WIDTHS_Q = [1, 2, 20, 40, 79, 80, 81, 100, 200]
 
@@ -30,6 +30,40 @@ def alias_mapfile(rng, entry, tables):
         L.append('!gvar_names')
         for g in regs:
             if rng.chance(0.6): L.append('%d ZZ_R%s' % (g, str(g).replace('-', 'm')))
+    return '\n'.join(L) + '\n'
+
+def enum_mapfile(rng, entry, tables):
+    """A user mapfile that re-declares plain int parameters of existing signatures as enum-typed and defines the enums (values
+    print as names, unknown values as numbers; shared constant names force qualified printing), plus, for ECL, its own names
+    for the difficulty flags.  All of it is naming only: the same mapfile is given to decompile and compile."""
+    tool = entry['tool']
+    if entry.get('msg_mode') == 'mission': return None
+    lang = {'anm': 'anm', 'std': 'std', 'msg': 'end' if entry.get('msg_mode') == 'ending' else 'msg', 'ecl': 'ecl'}[tool]
+    magic = {'anm': '!anmmap', 'std': '!stdmap', 'msg': '!endmap' if entry.get('msg_mode') == 'ending' else '!msgmap', 'ecl': '!eclmap'}[tool]
+    t = tables.get(entry['game'], lang)
+    cands = [op for op, ps in sorted(t['sigs'].items()) if op not in t['intrinsics'] and any(p.ch == 'S' and not p.attrs for p in ps)]
+    if not cands: return None
+    names = ['ZzA', 'ZzB', 'ZzC'][:rng.randint(1, 3)]
+    L = [magic]
+    pool = ['zero', 'one', 'two', 'left', 'right', 'up', 'down', 'big', 'neg']
+    for en in names:
+        L.append('!enum(name="%s")' % en)
+        vals = rng.sample([-1, 0, 1, 2, 3, 4, 5, 7, 10, 16, 100, 255, 1000, -2], rng.randint(1, 6))
+        used = set()
+        for v in vals:
+            nm = rng.pick(pool) if rng.chance(0.5) else '%s_%s' % (en.lower(), rng.pick(pool))
+            if nm in used: continue
+            used.add(nm); L.append('%d %s' % (v, nm))
+    L.append('!ins_signatures')
+    for op in rng.sample(cands, min(len(cands), rng.randint(1, 10))):
+        ps = t['sigs'][op]
+        idx = rng.pick([i for i, p in enumerate(ps) if p.ch == 'S' and not p.attrs])
+        L.append('%d %s' % (op, ''.join(('S(enum="%s")' % rng.pick(names)) if i == idx else p.text() for i, p in enumerate(ps))))
+    if tool == 'ecl' and rng.chance(0.5):
+        L.append('!difficulty_flags')
+        letters = rng.sample('ABCDGJKMPQ', 8)
+        on = [b for b in range(4, 8) if rng.chance(0.5)]
+        for b in range(8): L.append('%d %s%s' % (b, letters[b], '+' if b in on else '-'))
     return '\n'.join(L) + '\n'
 
 def nontrivial(entry):
@@ -82,7 +116,7 @@ def roundtrip(ctx, entry, dopts, width, mapfile, tables):
     ctx.count('roundtrips_identical')
     ctx.seen('option_sets_seen', ''.join('1' if dopts.get(k, True) else '0' for k in OPTS))
     ctx.seen('formats_seen', tag); ctx.seen('games_seen', tag + ':' + game); ctx.seen('widths_seen', width)
-    if mapfile: ctx.count('with_alias_mapfile')
+    if mapfile: ctx.count('with_enum_mapfile' if '!enum' in mapfile else 'with_alias_mapfile')
     if nontrivial(entry): ctx.fp(hash(entry['data']), tuple(sorted(dopts.items())), width, bool(mapfile))
     ctx.sample({'origin': entry['name'], 'tool': tag, 'game': game, 'options': dopts, 'width': width, 'decompiled': replay['decompiled'][:500]}, cap=2)
 
@@ -173,7 +207,7 @@ def run_shard(ctx):
             for _ in range(k):
                 o = {kk: False for kk in OPTS if r.chance(0.3)}
                 w = r.pick(widths) if r.chance(0.8) else r.randint(1, 200)
-                m = alias_mapfile(r, e, tables) if r.chance(0.25) else None
+                m = alias_mapfile(r, e, tables) if r.chance(0.25) else (enum_mapfile(r, e, tables) if r.chance(0.2) else None)
                 roundtrip(ctx, e, o, w, m, tables); done += 1
 
 def replay(path):
